@@ -1,6 +1,33 @@
 From BR Require Import Base.Prelude Gen.Consts Net.NodeFSM.
 Open Scope N_scope.
 
+Lemma varint_size_pos n : 1 <= varint_size n.
+Proof. unfold varint_size. destruct (n <? 253); [lia|]. destruct (n <? 65536); [lia|]. destruct (n <? 4294967296); lia. Qed.
+
+(* the reader loses its place only on headers received before the handshake completed (D26) *)
+Lemma desync_only_D26 s m : desync s m = true ->
+  n_ready s = false /\ n_hs_complete s = false /\ exists c fi a, m = MHeaders c fi a.
+Proof.
+  unfold desync. intros H. apply negb_true_iff in H. apply N.eqb_neq in H.
+  destruct m; cbn [handler_reads canonical_len consumed_by] in H; try congruence.
+  - destruct (n_ready s) eqn:Er.
+    + exfalso. apply H. cbn [consumed_by]. unfold headers_body.
+      destruct all_ok; [lia|]. destruct (count =? 0) eqn:E; [apply N.eqb_eq in E; subst; lia|apply N.eqb_neq in E; nia].
+    + destruct (n_hs_complete s) eqn:Ec.
+      * exfalso. apply H. cbn [consumed_by]. unfold headers_body.
+        destruct (count =? 0) eqn:E; [apply N.eqb_eq in E; subst; lia|apply N.eqb_neq in E; nia].
+      * repeat split; eauto.
+  - destruct (n_ready s); cbn [consumed_by] in H; congruence.
+  - destruct (n_ready s && n_has_txm s); cbn [consumed_by] in H; congruence.
+  - destruct (n_ready s && requested); cbn [consumed_by] in H; [exfalso; apply H; lia|congruence].
+Qed.
+
+Lemma desync_false_ready s m : n_ready s = true -> desync s m = false.
+Proof. intros Hr. destruct (desync s m) eqn:E; [|reflexivity]. apply desync_only_D26 in E. destruct E as [E _]. congruence. Qed.
+
+Lemma desync_false_hs s m : n_hs_complete s = true -> desync s m = false.
+Proof. intros Hr. destruct (desync s m) eqn:E; [|reflexivity]. apply desync_only_D26 in E. destruct E as (_ & E & _). congruence. Qed.
+
 Lemma rep_guarded n e : existsb guarded_effect (rep n e) = true -> guarded_effect e = true.
 Proof. induction n as [|n IH]; cbn; [discriminate|]. destruct (guarded_effect e); auto. Qed.
 
@@ -10,7 +37,7 @@ Theorem no_guarded_effect_unless_ready s a :
   n_ready s = false -> existsb guarded_effect (snd (nstep s a)) = false.
 Proof.
   intros Hr. destruct a as [m|]; cbn [nstep].
-  - unfold recv. destruct (n_stopped s); [reflexivity|]. rewrite Hr.
+  - unfold recv. destruct (n_stopped s); [reflexivity|]. destruct (desync s m); [reflexivity|]. rewrite Hr.
     destruct m; cbn [snd andb]; try reflexivity.
     + destruct (1 <? _); reflexivity.
     + destruct (negb (n_hs_complete s)); [reflexivity|]. destruct (count =? 0); [reflexivity|].
@@ -27,7 +54,8 @@ Theorem ready_only_by_bsv_reply s a : n_ready s = false -> n_ready (fst (nstep s
                        n_stopped s = false /\ n_verified (fst (nstep s a)) = true.
 Proof.
   intros Hr Hr'. destruct a as [m|]; cbn [nstep] in *.
-  - unfold recv in *. destruct (n_stopped s) eqn:Es; [cbn in Hr'; congruence|]. rewrite Hr in *.
+  - unfold recv in *. destruct (n_stopped s) eqn:Es; [cbn in Hr'; congruence|].
+    destruct (desync s m); [cbn in Hr'; congruence|]. rewrite Hr in *.
     destruct m; cbn [fst andb] in Hr'; try (unfold push_hs in Hr'; destruct (_ <? cap_hs); cbn in Hr'; congruence); try congruence.
     + destruct (1 <? _); cbn in Hr'; congruence.
     + destruct (n_hs_complete s) eqn:Eh; cbn [negb] in *; [|cbn in Hr'; congruence].
@@ -45,7 +73,7 @@ Proof.
   intros H. destruct (n_ready s) eqn:Er.
   - specialize (H eq_refl). intros _.
     destruct a as [m|]; cbn [nstep]; [unfold recv|unfold hs_step].
-    + destruct (n_stopped s); [exact H|]. rewrite Er.
+    + destruct (n_stopped s); [exact H|]. destruct (desync s m); [exact H|]. rewrite Er.
       destruct m; cbn [fst andb]; try exact H; try (unfold push_hs; destruct (_ <? cap_hs); exact H).
       * destruct (1 <? _); exact H.
       * destruct right_nonce; exact H.
@@ -87,7 +115,7 @@ Theorem verify_only_disconnects s count all_ok : n_stopped s = false -> n_ready 
   let '(s1, es) := recv s (MHeaders count HBsv all_ok) in
   n_verified s1 = true /\ n_stopped s1 = true /\ In EStop es /\ existsb guarded_effect es = false.
 Proof.
-  intros Hs Hr Hh Hc Hv. unfold recv. rewrite Hs, Hr, Hh. cbn [negb].
+  intros Hs Hr Hh Hc Hv. unfold recv. rewrite Hs, (desync_false_hs s _ Hh), Hr, Hh. cbn [negb].
   apply N.eqb_neq in Hc. rewrite Hc. unfold accept. rewrite Hv. cbn. repeat split; auto.
 Qed.
 
@@ -96,18 +124,46 @@ Theorem foreign_reply_disconnects s count first all_ok : n_stopped s = false -> 
   let '(s1, es) := recv s (MHeaders count first all_ok) in
   n_verified s1 = n_verified s /\ n_ready s1 = false /\ n_stopped s1 = true /\ In EStop es.
 Proof.
-  intros Hs Hr Hh Hc. unfold recv. rewrite Hs, Hr, Hh. cbn [negb].
+  intros Hs Hr Hh Hc. unfold recv. rewrite Hs, (desync_false_hs s _ Hh), Hr, Hh. cbn [negb].
   destruct (count =? 0) eqn:E; [cbn; repeat split; auto|].
   destruct Hc as [Hc|Hc]; [apply N.eqb_neq in E; contradiction|].
   destruct first; try contradiction; cbn; repeat split; auto.
 Qed.
 
-(* C14: every conformant message is consumed to exactly its declared length, in every state *)
-Theorem conformant_frame_consumed s f : well_formed f = true -> consumed_code s f = consumed s f.
+(* C14: every conformant message is consumed to exactly its declared length, in every state a
+   verified peer can meet (and in every state at all, except headers sent before the handshake
+   completed: D26 below) *)
+Theorem conformant_frame_consumed_gen s f : well_formed f = true ->
+  (forall c fi a, f_msg f = MHeaders c fi a -> n_ready s = true \/ n_hs_complete s = true) ->
+  consumed_code s f = consumed s f.
 Proof.
-  intros Hw. unfold consumed_code. destruct (f_msg f) eqn:Em; try reflexivity.
-  destruct (n_ready s && n_has_txm s && negb (n_stopped s)); [|reflexivity].
-  unfold consumed, well_formed in *. rewrite Em in *. apply N.eqb_eq in Hw. rewrite Hw. cbn. lia.
+  intros Hw Hh. unfold consumed_code, consumed. f_equal.
+  unfold well_formed in Hw. destruct (f_msg f) eqn:Em; cbn [handler_reads consumed_by]; try reflexivity.
+  - (* headers *) apply N.eqb_eq in Hw. rewrite Hw.
+    destruct (Hh count first all_ok eq_refl) as [Hr|Hc].
+    + rewrite Hr. cbn [consumed_by]. destruct all_ok; [lia|]. unfold headers_body.
+      destruct (count =? 0) eqn:E; [apply N.eqb_eq in E; subst; lia|apply N.eqb_neq in E; nia].
+    + destruct (n_ready s); cbn [consumed_by].
+      * destruct all_ok; [lia|]. unfold headers_body.
+        destruct (count =? 0) eqn:E; [apply N.eqb_eq in E; subst; lia|apply N.eqb_neq in E; nia].
+      * rewrite Hc. cbn [consumed_by]. unfold headers_body.
+        destruct (count =? 0) eqn:E; [apply N.eqb_eq in E; subst; lia|apply N.eqb_neq in E; nia].
+  - (* getaddr *) apply N.eqb_eq in Hw. rewrite Hw. destruct (n_ready s); reflexivity.
+  - (* inv *) apply N.eqb_eq in Hw. rewrite Hw. destruct (n_ready s && n_has_txm s); reflexivity.
+  - (* block *) apply N.leb_le in Hw. destruct (n_ready s && requested); cbn [consumed_by]; lia.
+Qed.
+
+Theorem conformant_frame_consumed s f : n_ready s = true -> well_formed f = true ->
+  consumed_code s f = consumed s f.
+Proof. intros Hr Hw. apply conformant_frame_consumed_gen; [exact Hw|]. intros; left; exact Hr. Qed.
+
+(* observation D26 (outside C14: the peer is not verified): headers received before the handshake
+   completed are not consumed at all, the next header is read from inside this message *)
+Theorem headers_before_handshake_desync s f c fi a : n_ready s = false -> n_hs_complete s = false ->
+  f_msg f = MHeaders c fi a -> 0 < f_len f -> consumed_code s f < consumed s f.
+Proof.
+  intros Hr Hc Em Hl. unfold consumed_code, consumed. rewrite Em. cbn [handler_reads is_ext].
+  rewrite Hr, Hc. cbn [consumed_by]. lia.
 Qed.
 
 (* C14: the read loop is never parked: handling a message always returns (the only blocking send,
@@ -167,7 +223,7 @@ Theorem ready_stops_only_on_violation s m : n_stopped s = false -> n_ready s = t
   (m = MProtoconf /\ 1 <= n_protoconf s) \/ m = MPong false \/
   (exists c f, m = MHeaders c f false).
 Proof.
-  intros Hs Hr. unfold recv. rewrite Hs, Hr.
+  intros Hs Hr. unfold recv. rewrite Hs, (desync_false_ready s m Hr), Hr.
   destruct m; cbn [fst andb]; try (intros H; cbn in H; congruence);
     try (unfold push_hs; destruct (_ <? cap_hs); intros H; cbn in H; congruence).
   - cbn [n_protoconf]. destruct (1 <? n_protoconf s + 1) eqn:E; [|intros H; cbn in H; congruence]. intros _. left.
